@@ -497,7 +497,15 @@ class SimSubprocess:
         if conv == "filein_fileout":
             out, result = shape_minisat(verdict, model, shape)
             fault = self.plan.get("result_file")
-            if fault == "missing":
+            if fault == "deleted":
+                # a failing wrapper that tidies up its incomplete result
+                self.ctx.fault("result_file_deleted")
+                try:
+                    import os as _os
+                    _os.unlink(outfile)
+                except OSError:
+                    pass
+            elif fault == "missing":
                 self.ctx.fault("result_file_not_written")
             elif fault == "empty":
                 self.ctx.fault("result_file_empty")
@@ -567,7 +575,7 @@ def shape_dimacs_output(verdict, model, shape):
         lines.append(b"")
     sline = b"s SATISFIABLE" if verdict else b"s UNSATISFIABLE"
     vlines = []
-    if verdict:
+    if verdict and not shape.get("no_model"):
         lits = list(model)
         if shape.get("perm"):
             # a legal but unusual order of the literals
@@ -615,7 +623,9 @@ def shape_minisat(verdict, model, shape):
     if shape.get("chatter_s_line"):
         # chatter that looks like a DIMACS 's' line must be ignored
         chatter += b"s UNSATISFIABLE\n" if verdict else b"s SATISFIABLE\n"
-    if verdict:
+    if verdict and shape.get("no_model"):
+        body = b"SAT\n"
+    elif verdict:
         body = b"SAT\n" + b" ".join(str(l).encode() for l in model)
         body += b" 0\n" if model else b"0\n"
         if shape.get("minisat_no_newline"):
@@ -658,4 +668,8 @@ def random_shape(rng):
         s["stderr"] = [rng.randrange(7) for _ in range(rng.randint(1, 3))]
         s["stderr_first"] = rng.random() < 0.5
     s["exit_10_20"] = rng.random() < 0.6
+    if rng.random() < 0.06:
+        # a solver that only tells whether the formula is satisfiable (some
+        # print the model only on request)
+        s["no_model"] = True
     return s
